@@ -15,12 +15,27 @@ structure OpEnv where
   /-- CBOR sizes of the outputs of the body compiled last by this compiler instance. -/
   latestOutputs : Option (List Nat)
 
-/-- `coercion::expr_into_number`: a number, or a one-entry asset list's amount. -/
+/-- `coercion::expr_into_number`: a number, or a one-entry asset list's amount - read the same way, to any
+depth (structural recursion on the amount, as the Rust recurses on `&x[0].amount`). -/
 def exprIntoNumber : Expr → Outcome Int
   | .leaf (.number n) => .ok n
-  | .node .assets [_, _, .leaf (.number n)] => .ok n
-  | .node .assets [_, _, .node .assets [_, _, .leaf (.number n)]] => .ok n
+  | .node .assets [_, _, a] => exprIntoNumber a
   | _ => .err "CoerceError:Number"
+
+/-- Proved here so that the equation lemmas and the induction principle of `exprIntoNumber` are generated in this
+module (two proof modules generating them lazily would clash in the root import). -/
+theorem exprIntoNumber_total (e : Expr) :
+    (∃ n, exprIntoNumber e = .ok n) ∨ exprIntoNumber e = .err "CoerceError:Number" := by
+  fun_induction exprIntoNumber e with
+  | case1 m => exact Or.inl ⟨_, rfl⟩
+  | case2 p a e ih => exact ih
+  | case3 e h1 h2 => exact Or.inr rfl
+
+theorem exprIntoNumber_one (p a e : Expr) : exprIntoNumber (.node .assets [p, a, e]) = exprIntoNumber e := by
+  simp [exprIntoNumber]
+
+theorem exprIntoNumber_none : exprIntoNumber (.node .assets []) = .err "CoerceError:Number" := by
+  simp [exprIntoNumber]
 
 def opErr (e : String) : Outcome Expr := .err ("CompilerOpFailed:" ++ e)
 
